@@ -1,7 +1,7 @@
 (* C03: obligations over the generated tables, the witnesses of the three findings, and the
    non-vacuity examples of the implications proved in NameRefProofs / RenameProofs. *)
 From KV Require Import Res.BuildRefs Res.FsFacts Res.CsvFacts Res.NameRefProofs Res.RenameProofs Res.RewriteProofs.
-From KV Require Import Gen.NameRefRules Gen.FieldSpecs.
+From KV Require Import Gen.NameRefRules Gen.FieldSpecs Res.NameRefRulesRef.
 
 (* ================= obligations over the generated rule table ================= *)
 
@@ -65,6 +65,15 @@ Lemma gen_prefix_table : gen_name_prefix_fs = name_fs.
 Proof. reflexivity. Qed.
 Lemma gen_suffix_table : gen_name_suffix_fs = name_fs.
 Proof. reflexivity. Qed.
+
+(* ================= the regenerated tables are the documented ones ================= *)
+
+(* every table C03 depends on, regenerated from /repo, equals the committed reference copy *)
+Lemma gen_rules_eq_ref :
+  gen_nameref_raw = ref_nameref_raw /\
+  gen_gvk_order_first = ref_gvk_order_first /\ gen_gvk_order_last = ref_gvk_order_last /\
+  gen_prefix_skip = ref_prefix_skip /\ gen_suffix_skip = ref_suffix_skip.
+Proof. repeat split; vm_compute; reflexivity. Qed.
 
 (* ================= the reference kinds the property names ================= *)
 
